@@ -76,10 +76,11 @@ CHECKS = {
     "C19": dict(
         level="model_checking",
         rule="part 1: status(12 incl. transport error) x ETag header(3) x Retry-After(5) x body(6) x strict/loose x plain/etag executor x cache state(3) on the real webhookExecutor.Call; "
-             "part 2: ALL interleavings of 2 (thorough: 3 -> 1680 schedules) concurrent calls with the same cache key at the granularity enrich-headers / server decision / adjust+decode, x every pattern of server content changes x cache primed or empty + a cache primed with a body that carries an unknown field (stored with its ETag before decoding: strict mode must reject it again when a 304 brings it back); plus every sequence of 3 (thorough 4) calls through one ETag-enabled executor over 2 parents x 9 answers (200 with E1/E2/no ETag, 200+E1 with an unknown field, 304, 412, 412 carrying an ETag and a JSON body, 503 error page, 429) in loose and strict mode (2 x 18^3 = 11 664; thorough 209 952), compared call by call with a reference model (per parent the (ETag, body) pair that last arrived together): If-None-Match sent, verdict, decoded body, cache content",
+             "part 2: ALL interleavings of 2 (thorough: 3 -> 1680 schedules) concurrent calls with the same cache key at the granularity enrich-headers / server decision / adjust+decode, x every pattern of server content changes x cache primed or empty + a cache primed with a body that carries an unknown field (stored with its ETag before decoding: strict mode must reject it again when a 304 brings it back); plus every sequence of 3 (thorough 4) calls through one ETag-enabled executor over 2 parents x 9 answers (200 with E1/E2/no ETag, 200+E1 with an unknown field, 304, 412, 412 carrying an ETag and a JSON body, 503 error page, 429) in loose and strict mode (2 x 18^3 = 11 664; thorough 209 952), compared call by call with a reference model; plus a production-built executor (real http.Client behind the metrics instrumentation, timeout 200 ms) against a server that stops talking before the headers / after the headers / in the middle of the body, with and without ETag, loose and strict: the call returns an error (waited for with a 60 s liveness watchdog) (per parent the (ETag, body) pair that last arrived together): If-None-Match sent, verdict, decoded body, cache content",
         units=[
             dict(pkg=HOOKS, test="TestVerifC19", shards=dict(quick=2, thorough=8), budget=dict(quick=300, thorough=900)),
             dict(pkg=HOOKS, test="TestVerifC19Seq", shards=dict(quick=4, thorough=16), budget=dict(quick=300, thorough=900)),
+            dict(pkg=HOOKS, test="TestVerifC19Timeout", shards=dict(quick=4, thorough=4), budget=dict(quick=600, thorough=900)),
         ],
         assumptions=["scripted HttpClientInterface instead of a socket; each phase performs at most one ETag-cache operation, so phase interleavings are complete for this code (Lipton reduction)"],
         traces_are_evals=True,
